@@ -132,6 +132,13 @@ where
             }));
         }
 
+        if !last && next_offset % max(L::ALIGN, T::ALIGN) != 0 {
+            return Some(Err(Error {
+                kind: ErrorKind::BadAlign,
+                pos: self.pos,
+            }));
+        }
+
         if (!last && next_offset > data.bytes().len()) || payload_offset > data.bytes().len() {
             return Some(Err(Error {
                 kind: ErrorKind::InsufficientSize,
